@@ -56,7 +56,12 @@ fn main() {
          Non-trivial = an expiry rescan happened (the unique extreme of a window sat at the position that just left) and a tie exists inside some window after the first removal; distinct = distinct serialised cases",
     )
     .assume("omitted min_periods of the extrema/rank family is asserted for len >= w only (DESIGN 5.3)")
-    .assume("ts_vmin/ts_vmax are not asked for a plain i32 output (no null encoding, DESIGN 5.7)");
+    .assume("ts_vmin/ts_vmax are not asked for a plain i32 output (no null encoding, DESIGN 5.7)")
+    .assume("thorough tier: libFuzzer target fz_extrema (bytes -> alphabet-coded series, window, min_periods, statistic) runs the same oracle")
+    .raw(|bytes| {
+        let (c, st) = tvh::fuzzable::decode_extrema(bytes);
+        (format!("ts_v{}", st.name()), serde_json::to_value(c).unwrap())
+    });
     let exact = [
         Stat::Min,
         Stat::Max,
